@@ -132,11 +132,12 @@ package gldap
 //@   ensures  err == nil ==> result0 == old(str(op(p.Packet))) && len(result1) == old(nctl(p.Packet))
 //@   ensures  old(reqPktOK(p.Packet) && op(p.Packet).Tag == ApplicationDelRequest && nkids(p.Packet) == 2) ==> err == nil
 //@   panics false
+//@   modifies packet.validated, all(ber.Packet), cell(*ber.Packet), G_bufdata, G_pktnew
 //@   tags C01
 //@   safety C02
 //@ loop 1
 //@   invariant len(controls) == rangeindex + 1
-//@   modifies cell(Control), all(ber.Packet), cell(*ber.Packet), G_bufdata, G_pktnew
+//@   modifies cell(Control)@controls, all(ber.Packet), cell(*ber.Packet), G_bufdata, G_pktnew
 
 //@ func (*gldap.packet).simpleBindParameters
 //@   requires packetOK(p) && wire(p.Packet)
@@ -146,11 +147,12 @@ package gldap
 //@   ensures  err == nil && old(nkids(op(p.Packet))) <= 3 ==> old(nkids(op(p.Packet)) == 3 && ctxPrim0(kid(op(p.Packet),2)) && ctlPktOK(p.Packet)) && result1 == old(str(kid(op(p.Packet),2))) && len(result2) == old(nctl(p.Packet))
 //@   ensures  old(reqPktOK(p.Packet) && nkids(op(p.Packet)) == 3 && isOct(kid(op(p.Packet),1)) && ctxPrim0(kid(op(p.Packet),2)) && nkids(p.Packet) == 2) ==> err == nil
 //@   panics false
+//@   modifies packet.validated, all(ber.Packet), cell(*ber.Packet), G_bufdata, G_pktnew
 //@   tags C01
 //@   safety C02
 //@ loop 1
 //@   invariant len(controls) == rangeindex + 1
-//@   modifies cell(Control), all(ber.Packet), cell(*ber.Packet), G_bufdata, G_pktnew
+//@   modifies cell(Control)@controls, all(ber.Packet), cell(*ber.Packet), G_bufdata, G_pktnew
 
 //@ pure searchHead(o *ber.Packet) bool = o.Tag == ApplicationSearchRequest && nkids(o) >= 7 && isOct(kid(o,0)) && isEnum(kid(o,1)) && isEnum(kid(o,2)) && isInt(kid(o,3)) && isInt(kid(o,4)) && isU(kid(o,5), ber.TypePrimitive, ber.TagBoolean)
 //@ pure attrListOK(a *ber.Packet) bool = isSeq(a) && forall(j, 0, nkids(a), isOct(kid(a,j)))
@@ -166,16 +168,17 @@ package gldap
 //@   ensures  err == nil && old(nkids(op(p.Packet))) >= 8 ==> forall(j, 0, len(result0.attributes), result0.attributes[j] == old(str(kid(kid(op(p.Packet),7),j))))
 //@   ensures  old(reqPktOK(p.Packet) && searchHead(op(p.Packet)) && filterOK(kid(op(p.Packet),6)) && nkids(op(p.Packet)) == 8 && attrListOK(kid(op(p.Packet),7)) && nkids(p.Packet) == 2) ==> err == nil
 //@   panics false
+//@   modifies packet.validated, all(ber.Packet), cell(*ber.Packet), G_bufdata, G_pktnew
 //@   tags C01
 //@   safety C02
 //@ loop 1
 //@   invariant len(searchFor.attributes) == rangeindex__1 + 1
 //@   invariant forall(j, 0, len(searchFor.attributes), searchFor.attributes[j] == old(str(kid(kid(op(p.Packet),7),j))))
 //@   invariant forall(j, 0, rangeindex__1 + 1, isOct(kid(attributesPacket.Packet,j)))
-//@   modifies searchParameters.attributes, cell(string)
+//@   modifies searchParameters.attributes, cell(string)@searchFor.attributes
 //@ loop 2
 //@   invariant len(searchFor.controls) == rangeindex__2 + 1
-//@   modifies searchParameters.controls, cell(Control), all(ber.Packet), cell(*ber.Packet), G_bufdata, G_pktnew
+//@   modifies searchParameters.controls, cell(Control)@searchFor.controls, all(ber.Packet), cell(*ber.Packet), G_bufdata, G_pktnew
 
 //@ predicate attrOK(b *ber.Packet) = isSeq(b) && nkids(b) >= 2 && isOct(kid(b,0)) && isU(kid(b,1), ber.TypeConstructed, ber.TagSet) && forall(j, 0, nkids(kid(b,1)), isOct(kid(kid(b,1),j)))
 //@ predicate strsAre(vs []string, set *ber.Packet) = len(vs) == old(nkids(set)) && forall(k, 0, len(vs), vs[k] == old(str(kid(set,k))))
@@ -191,7 +194,7 @@ package gldap
 //@   invariant len(decodedAttribute.Vals) == rangeindex + 1 && fresh(decodedAttribute.Vals)
 //@   invariant forall(j, 0, len(decodedAttribute.Vals), decodedAttribute.Vals[j] == str(kid(valuesPacket.Packet,j)))
 //@   invariant forall(j, 0, rangeindex + 1, isOct(kid(valuesPacket.Packet,j)))
-//@   modifies Attribute.Vals, cell(string)
+//@   modifies Attribute.Vals, cell(string)@decodedAttribute.Vals
 
 //@ pure addHead(q *ber.Packet) bool = reqPktOK(q) && op(q).Tag == ApplicationAddRequest && nkids(op(q)) >= 2 && isOct(kid(op(q),0)) && isSeq(kid(op(q),1))
 //@ func (*gldap.packet).addParameters
@@ -201,15 +204,16 @@ package gldap
 //@   ensures  err == nil ==> forall(j, 0, len(result0.attributes), old(attrOK(kid(kid(op(p.Packet),1),j))) && result0.attributes[j].Type == old(str(kid(kid(kid(op(p.Packet),1),j),0))) && strsAre(result0.attributes[j].Vals, old(kid(kid(kid(op(p.Packet),1),j),1))))
 //@   ensures  old(addHead(p.Packet) && forall(j, 0, nkids(kid(op(p.Packet),1)), attrOK(kid(kid(op(p.Packet),1),j))) && nkids(p.Packet) == 2) ==> err == nil
 //@   panics false
+//@   modifies packet.validated, all(ber.Packet), cell(*ber.Packet), G_bufdata, G_pktnew
 //@   tags C01
 //@   safety C02
 //@ loop 1
 //@   invariant len(add.attributes) == rangeindex__1 + 1
 //@   invariant forall(j, 0, len(add.attributes), old(attrOK(kid(kid(op(p.Packet),1),j))) && add.attributes[j].Type == old(str(kid(kid(kid(op(p.Packet),1),j),0))) && strsAre(add.attributes[j].Vals, old(kid(kid(kid(op(p.Packet),1),j),1))))
-//@   modifies addParameters.attributes, all(Attribute)
+//@   modifies addParameters.attributes, all(Attribute)@add.attributes
 //@ loop 2
 //@   invariant len(add.controls) == rangeindex__2 + 1
-//@   modifies addParameters.controls, cell(Control), all(ber.Packet), cell(*ber.Packet), G_bufdata, G_pktnew
+//@   modifies addParameters.controls, cell(Control)@add.controls, all(ber.Packet), cell(*ber.Packet), G_bufdata, G_pktnew
 
 //@ predicate valsWrapped(vs []string, set *ber.Packet) = len(vs) == old(nkids(set)) && forall(k, 0, len(vs), vs[k] == old(str(kid(set,k))) || vs[k] == old(pktbytes(kid(set,k))))
 //@ predicate changeOK(c *ber.Packet) = isSeq(c) && nkids(c) >= 2 && isEnum(kid(c,0)) && isSeq(kid(c,1)) && nkids(kid(c,1)) >= 2 && isOct(kid(kid(c,1),0))
@@ -221,6 +225,7 @@ package gldap
 //@   ensures  err == nil ==> forall(i, 0, len(result0.changes), old(changeOK(kid(kid(op(p.Packet),1),i))) && result0.changes[i].Operation == old(intval(kid(kid(kid(op(p.Packet),1),i),0))) && result0.changes[i].Modification.Type == old(str(kid(kid(kid(kid(op(p.Packet),1),i),1),0))))
 //@   ensures  err == nil ==> forall(i, 0, len(result0.changes), len(result0.changes[i].Modification.Vals) == old(nkids(kid(kid(kid(kid(op(p.Packet),1),i),1),1))))
 //@   panics false
+//@   modifies packet.validated, all(ber.Packet), cell(*ber.Packet), G_bufdata, G_pktnew
 //@   tags C01
 //@   safety C02
 //@ loop 1
@@ -229,14 +234,88 @@ package gldap
 //@   invariant forall(i, 0, len(parameters.changes), parameters.changes[i].Operation == old(intval(kid(kid(kid(op(p.Packet),1),i),0))))
 //@   invariant forall(i, 0, len(parameters.changes), parameters.changes[i].Modification.Type == old(str(kid(kid(kid(kid(op(p.Packet),1),i),1),0))))
 //@   invariant forall(i, 0, len(parameters.changes), len(parameters.changes[i].Modification.Vals) == old(nkids(kid(kid(kid(kid(op(p.Packet),1),i),1),1))))
-//@   modifies modifyParameters.changes, all(Change), cell(string)@none
+//@   modifies modifyParameters.changes, all(Change)@parameters.changes, cell(string)@none
 //@ loop 2
 //@   invariant len(chg.Modification.Vals) == rangeindex__2 + 1 && fresh(chg.Modification.Vals)
 //@   invariant forall(k, 0, len(chg.Modification.Vals), chg.Modification.Vals[k] == pktbytes(kid(valuesPacket, k)))
 //@   modifies cell(string)@chg.Modification.Vals
 //@ loop 3
 //@   invariant len(parameters.controls) == rangeindex__3 + 1
-//@   modifies modifyParameters.controls, cell(Control), all(ber.Packet), cell(*ber.Packet), G_bufdata, G_pktnew
+//@   modifies modifyParameters.controls, cell(Control)@parameters.controls, all(ber.Packet), cell(*ber.Packet), G_bufdata, G_pktnew
+
+// ---- message.go / request.go ------------------------------------------------------------
+// msgMatches(m, q): the decoded message m carries what the envelope q held when
+// the function was entered (positions from RFC 4511 4.2, 4.5.1, 4.6, 4.7, 4.8, 4.12).
+//@ pure msgMatches(m Message, q *ber.Packet) bool = !isNilIface(m) && iref(m) != 0 && old(reqPktOK(q) && supportedTag(op(q).Tag) && isInt(kid(q,0))) &&
+//@     (typeIs(m, *SimpleBindMessage) == old(op(q).Tag == ApplicationBindRequest)) && (typeIs(m, *SearchMessage) == old(op(q).Tag == ApplicationSearchRequest)) &&
+//@     (typeIs(m, *ExtendedOperationMessage) == old(op(q).Tag == ApplicationExtendedRequest)) && (typeIs(m, *ModifyMessage) == old(op(q).Tag == ApplicationModifyRequest)) &&
+//@     (typeIs(m, *AddMessage) == old(op(q).Tag == ApplicationAddRequest)) && (typeIs(m, *DeleteMessage) == old(op(q).Tag == ApplicationDelRequest)) &&
+//@     (typeIs(m, *UnbindMessage) == old(op(q).Tag == ApplicationUnbindRequest)) &&
+//@     (typeIs(m, *SimpleBindMessage) ==> bindMatches(m.(*SimpleBindMessage), q)) && (typeIs(m, *SearchMessage) ==> searchMatches(m.(*SearchMessage), q)) &&
+//@     (typeIs(m, *ExtendedOperationMessage) ==> m.(*ExtendedOperationMessage).id == old(intval(kid(q,0))) && m.(*ExtendedOperationMessage).Name == old(str(kid(op(q),0)))) &&
+//@     (typeIs(m, *ModifyMessage) ==> modifyMatches(m.(*ModifyMessage), q)) && (typeIs(m, *AddMessage) ==> addMatches(m.(*AddMessage), q)) &&
+//@     (typeIs(m, *DeleteMessage) ==> m.(*DeleteMessage).id == old(intval(kid(q,0))) && m.(*DeleteMessage).DN == old(str(op(q))) && len(m.(*DeleteMessage).Controls) == old(nctl(q))) &&
+//@     (typeIs(m, *UnbindMessage) ==> m.(*UnbindMessage).id == old(intval(kid(q,0))))
+//@ pure bindMatches(b *SimpleBindMessage, q *ber.Packet) bool = b.id == old(intval(kid(q,0))) && b.AuthChoice == SimpleAuthChoice && b.UserName == old(str(kid(op(q),1))) &&
+//@     (old(nkids(op(q))) <= 3 ==> b.Password == old(str(kid(op(q),2))) && len(b.Controls) == old(nctl(q)))
+//@ pure searchMatches(s *SearchMessage, q *ber.Packet) bool = s.id == old(intval(kid(q,0))) && s.BaseDN == old(str(kid(op(q),0))) && s.Scope == old(intval(kid(op(q),1))) &&
+//@     int64(s.DerefAliases) == old(intval(kid(op(q),2))) && s.SizeLimit == old(intval(kid(op(q),3))) && s.TimeLimit == old(intval(kid(op(q),4))) && s.TypesOnly == old(boolval(kid(op(q),5))) &&
+//@     s.Filter == old(decomp(kid(op(q),6))) && (old(nkids(op(q))) >= 8 ==> len(s.Attributes) == old(nkids(kid(op(q),7))) && len(s.Controls) == old(nctl(q)) &&
+//@     forall(j, 0, len(s.Attributes), s.Attributes[j] == old(str(kid(kid(op(q),7),j)))))
+//@ pure addMatches(a *AddMessage, q *ber.Packet) bool = a.id == old(intval(kid(q,0))) && a.DN == old(str(kid(op(q),0))) && len(a.Attributes) == old(nkids(kid(op(q),1))) && len(a.Controls) == old(nctl(q)) &&
+//@     forall(j, 0, len(a.Attributes), a.Attributes[j].Type == old(str(kid(kid(kid(op(q),1),j),0))) && strsAre(a.Attributes[j].Vals, old(kid(kid(kid(op(q),1),j),1))))
+//@ pure modifyMatches(m *ModifyMessage, q *ber.Packet) bool = m.id == old(intval(kid(q,0))) && m.DN == old(str(kid(op(q),0))) && len(m.Changes) == old(nkids(kid(op(q),1))) && len(m.Controls) == old(nctl(q)) &&
+//@     forall(i, 0, len(m.Changes), m.Changes[i].Operation == old(intval(kid(kid(kid(op(q),1),i),0))) && m.Changes[i].Modification.Type == old(str(kid(kid(kid(kid(op(q),1),i),1),0))) &&
+//@       len(m.Changes[i].Modification.Vals) == old(nkids(kid(kid(kid(kid(op(q),1),i),1),1))))
+
+//@ func gldap.newMessage
+//@   requires packetOK(p) && wire(p.Packet)
+//@   ensures  err == nil ==> !isNilIface(result0) && iref(result0) != 0 && old(reqPktOK(p.Packet) && supportedTag(op(p.Packet).Tag) && isInt(kid(p.Packet,0)))
+//@   ensures  err == nil ==> (typeIs(result0, *SimpleBindMessage) == old(op(p.Packet).Tag == ApplicationBindRequest)) && (typeIs(result0, *SearchMessage) == old(op(p.Packet).Tag == ApplicationSearchRequest))
+//@   ensures  err == nil ==> (typeIs(result0, *ExtendedOperationMessage) == old(op(p.Packet).Tag == ApplicationExtendedRequest)) && (typeIs(result0, *ModifyMessage) == old(op(p.Packet).Tag == ApplicationModifyRequest))
+//@   ensures  err == nil ==> (typeIs(result0, *AddMessage) == old(op(p.Packet).Tag == ApplicationAddRequest)) && (typeIs(result0, *DeleteMessage) == old(op(p.Packet).Tag == ApplicationDelRequest)) && (typeIs(result0, *UnbindMessage) == old(op(p.Packet).Tag == ApplicationUnbindRequest))
+//@   ensures  err == nil && typeIs(result0, *ExtendedOperationMessage) ==> result0.(*ExtendedOperationMessage).id == old(intval(kid(p.Packet,0))) && result0.(*ExtendedOperationMessage).Name == old(str(kid(op(p.Packet),0)))
+//@   ensures  err == nil && typeIs(result0, *DeleteMessage) ==> result0.(*DeleteMessage).id == old(intval(kid(p.Packet,0))) && result0.(*DeleteMessage).DN == old(str(op(p.Packet))) && len(result0.(*DeleteMessage).Controls) == old(nctl(p.Packet))
+//@   ensures  err == nil && typeIs(result0, *UnbindMessage) ==> result0.(*UnbindMessage).id == old(intval(kid(p.Packet,0)))
+//@   ensures  err == nil && typeIs(result0, *SimpleBindMessage) ==> bindMatches(result0.(*SimpleBindMessage), p.Packet)
+//@   ensures  err == nil && typeIs(result0, *SearchMessage) ==> searchMatches(result0.(*SearchMessage), p.Packet)
+//@   ensures  err == nil && typeIs(result0, *ModifyMessage) ==> modifyMatches(result0.(*ModifyMessage), p.Packet)
+//@   ensures  err == nil && typeIs(result0, *AddMessage) ==> addMatches(result0.(*AddMessage), p.Packet)
+//@   ensures  old(reqPktOK(p.Packet) && isInt(kid(p.Packet,0)) && nkids(p.Packet) == 2 && op(p.Packet).Tag == ApplicationUnbindRequest) ==> err == nil
+//@   ensures  old(reqPktOK(p.Packet) && isInt(kid(p.Packet,0)) && nkids(p.Packet) == 2 && op(p.Packet).Tag == ApplicationDelRequest) ==> err == nil
+//@   ensures  old(reqPktOK(p.Packet) && isInt(kid(p.Packet,0)) && nkids(p.Packet) == 2 && op(p.Packet).Tag == ApplicationBindRequest && nkids(op(p.Packet)) == 3 && isOct(kid(op(p.Packet),1)) && ctxPrim0(kid(op(p.Packet),2))) ==> err == nil
+//@   ensures  old(reqPktOK(p.Packet) && isInt(kid(p.Packet,0)) && nkids(p.Packet) == 2 && searchHead(op(p.Packet)) && filterOK(kid(op(p.Packet),6)) && nkids(op(p.Packet)) == 8 && attrListOK(kid(op(p.Packet),7))) ==> err == nil
+//@   ensures  old(reqPktOK(p.Packet) && isInt(kid(p.Packet,0)) && nkids(p.Packet) == 2 && op(p.Packet).Tag == ApplicationExtendedRequest && nkids(op(p.Packet)) >= 1 && ctxPrim0(kid(op(p.Packet),0))) ==> err == nil
+//@   ensures  old(addHead(p.Packet) && isInt(kid(p.Packet,0)) && nkids(p.Packet) == 2 && forall(j, 0, nkids(kid(op(p.Packet),1)), attrOK(kid(kid(op(p.Packet),1),j)))) ==> err == nil
+//@   panics false
+//@   modifies packet.validated, all(ber.Packet), cell(*ber.Packet), G_bufdata, G_pktnew
+//@   tags C01
+//@   safety C02
+
+//@ pure routeOpOf(m Message) routeOperation = cond(typeIs(m, *SimpleBindMessage), bindRouteOperation, cond(typeIs(m, *SearchMessage), searchRouteOperation, cond(typeIs(m, *ExtendedOperationMessage), extendedRouteOperation,
+//@     cond(typeIs(m, *ModifyMessage), modifyRouteOperation, cond(typeIs(m, *AddMessage), addRouteOperation, cond(typeIs(m, *DeleteMessage), deleteRouteOperation, unbindRouteOperation))))))
+//@ func gldap.newRequest
+//@   requires p != nil ==> packetOK(p) && wire(p.Packet)
+//@   ensures  err == nil ==> c != nil && p != nil && result0 != nil && fresh(result0) && result0.ID == id && result0.conn == c
+//@   ensures  err == nil ==> !isNilIface(result0.message) && iref(result0.message) != 0 && old(reqPktOK(p.Packet) && supportedTag(op(p.Packet).Tag) && isInt(kid(p.Packet,0)))
+//@   ensures  err == nil ==> (typeIs(result0.message, *SimpleBindMessage) == old(op(p.Packet).Tag == ApplicationBindRequest)) && (typeIs(result0.message, *SearchMessage) == old(op(p.Packet).Tag == ApplicationSearchRequest))
+//@   ensures  err == nil ==> (typeIs(result0.message, *ExtendedOperationMessage) == old(op(p.Packet).Tag == ApplicationExtendedRequest)) && (typeIs(result0.message, *ModifyMessage) == old(op(p.Packet).Tag == ApplicationModifyRequest))
+//@   ensures  err == nil ==> (typeIs(result0.message, *AddMessage) == old(op(p.Packet).Tag == ApplicationAddRequest)) && (typeIs(result0.message, *DeleteMessage) == old(op(p.Packet).Tag == ApplicationDelRequest)) && (typeIs(result0.message, *UnbindMessage) == old(op(p.Packet).Tag == ApplicationUnbindRequest))
+//@   ensures  err == nil && typeIs(result0.message, *ExtendedOperationMessage) ==> result0.message.(*ExtendedOperationMessage).id == old(intval(kid(p.Packet,0))) && result0.message.(*ExtendedOperationMessage).Name == old(str(kid(op(p.Packet),0)))
+//@   ensures  err == nil && typeIs(result0.message, *DeleteMessage) ==> result0.message.(*DeleteMessage).id == old(intval(kid(p.Packet,0))) && result0.message.(*DeleteMessage).DN == old(str(op(p.Packet))) && len(result0.message.(*DeleteMessage).Controls) == old(nctl(p.Packet))
+//@   ensures  err == nil && typeIs(result0.message, *UnbindMessage) ==> result0.message.(*UnbindMessage).id == old(intval(kid(p.Packet,0)))
+//@   ensures  err == nil && typeIs(result0.message, *SimpleBindMessage) ==> bindMatches(result0.message.(*SimpleBindMessage), p.Packet)
+//@   ensures  err == nil && typeIs(result0.message, *SearchMessage) ==> searchMatches(result0.message.(*SearchMessage), p.Packet)
+//@   ensures  err == nil && typeIs(result0.message, *ModifyMessage) ==> modifyMatches(result0.message.(*ModifyMessage), p.Packet)
+//@   ensures  err == nil && typeIs(result0.message, *AddMessage) ==> addMatches(result0.message.(*AddMessage), p.Packet)
+//@   ensures  err == nil ==> result0.routeOp == routeOpOf(result0.message)
+//@   ensures  err == nil && typeIs(result0.message, *ExtendedOperationMessage) ==> result0.extendedName == result0.message.(*ExtendedOperationMessage).Name
+//@   ensures  err == nil && !typeIs(result0.message, *ExtendedOperationMessage) ==> result0.extendedName == ""
+//@   ensures  err != nil ==> result0 == nil
+//@   panics false
+//@   modifies packet.validated, all(ber.Packet), cell(*ber.Packet), G_bufdata, G_pktnew
+//@   tags C01 C06
+//@   safety C02
 
 // ---- control.go -------------------------------------------------------------------------
 //@ func gldap.decodeControl
